@@ -11,7 +11,9 @@ implicit carrier; they agree modulo the projector — covered by `U'`, `U'†` b
 Key lemma `C06_embedded_solution_unique`: a solution of the projected equation in the range of the projector, supported on the block pair, IS the embedding of the
 explicit solution (pull back with `E†·E`, entrywise uniqueness for separated energies).  `C06_spec_consistent`: the specification is met by the explicit
 environment itself with `E = 1`.
-Not proved: that an *executable* model of the code's implicit environment (ComplementProjector products, LU solves) meets `ImplicitSpec`; the non-Hermitian
+`C06_ambient_solution_meets_spec` + C16's `C16_direct_greens_function`, `C16_direct_right/left_implicit`: the equation and range clauses of the solver part of
+the specification follow from the contract of `direct_greens_function` (the code solves with the ambient `H_0`, never with the projected one).
+Not proved: that an *executable* model of the whole implicit environment (ComplementProjector products for the inputs, the support clause, LU solves) meets `ImplicitSpec`; the non-Hermitian
 algorithm; KPM.  These rest on the correspondence `harness/implicit_corr.py` (implicit vs explicit real runs: Hermitian and non-Hermitian, arbitrary vector order,
 degenerate levels, direct solver and KPM with/without auxiliary vectors, all blocks incl. both orientations of the implicit one).
 -/
@@ -44,6 +46,16 @@ theorem C06_embedded_solution_unique {B B' : Blocks} {E : Matrix (Fin B'.d) (Fin
     (hV' : SuppM B' i j V') (hV'eq : isoM E (Matrix.diagonal en) * V' - V' * isoM E (Matrix.diagonal en) = isoM E Y) :
     V' = isoM E V :=
   sylvester_embedded_unique hE en i j hsep Y V hV hVeq V' hrange hV' hV'eq
+
+/-- **C06** what the direct solver delivers is what the specification asks: the code solves with the *ambient* `H_0` (it never forms the projected one); since that
+commutes with the projector and compresses to the embedded `H_0`, an ambient solution in the range of the projector solves the projected Sylvester equation of
+`ImplicitSpec.solver_off`.  Together with `C16_direct_greens_function` (each constrained solve returns the solution in the range) and
+`C16_direct_right_implicit` / `C16_direct_left_implicit` (the rows / columns assemble to the ambient equation) this derives the equation and range clauses of the
+specification from the contract of `direct_greens_function`. -/
+theorem C06_ambient_solution_meets_spec {B B' : Blocks} {E : Matrix (Fin B'.d) (Fin B.d) K} (hE : Isometry E) (A' V' Y' H0' : MatK K B')
+    (hcomm : proj E * A' = A' * proj E) (hcomp : proj E * A' * proj E = H0') (hrange : proj E * V' * proj E = V')
+    (hamb : A' * V' - V' * A' = Y') : H0' * V' - V' * H0' = Y' :=
+  ambient_to_projected hE A' V' Y' H0' hcomm hcomp hrange hamb
 
 /-- non-vacuity: the explicit environment meets the specification with the identity embedding -/
 theorem C06_spec_consistent (p : Problem K) (hgt : ∀ (x : K) (t : ℚ), Thresholds.absGt x t = true → x ≠ 0) (hwf : p.WF)
